@@ -26,14 +26,14 @@ CONSTANTS Family,     \* which workflow: one of the built-in families, or "custo
                           \* channel blocks while the run lock is held; FALSE = the repaired engine drops the error
 
 ASSUME Retries >= 1 /\ ~(SplitHandlers /\ BlockingErrors)
-NoCustom == [steps |-> <<>>, refs |-> <<>>, outputs |-> <<>>, enabled |-> <<>>, stop |-> <<>>]
+NoCustom == [steps |-> <<>>, refs |-> <<>>, outputs |-> <<>>, enabled |-> <<>>, stop |-> <<>>, kinds |-> <<>>]
 Nil == "nil"
 AND == "and"  CAND == "cand"  NONE == "-"
 
 ----------------------------------------------------------------------------
 \* Workflow families (abstract syntax): Steps, references of the starting stage, outputs, outcome model
 RangeOf(f) == {f[x] : x \in DOMAIN f}
-Steps == CASE Family = "custom" -> RangeOf(Custom.steps) [] Family \in {"dis2", "stop2"} -> {"a", "b"} [] Family = "single" -> {"a"} [] Family = "chain2" -> {"a", "b"} [] Family = "fan2" -> {"a", "b"}
+Steps == CASE Family = "custom" -> RangeOf(Custom.steps) [] Family \in {"dis2", "stop2", "loop2"} -> {"a", "b"} [] Family \in {"single", "loop1"} -> {"a"} [] Family = "chain2" -> {"a", "b"} [] Family = "fan2" -> {"a", "b"}
            [] Family = "fan3" -> {"a", "b", "c"} [] Family = "detector" -> {"a", "b"}
 
 St(s, st) == <<"st", s, st>>
@@ -45,6 +45,7 @@ InNode == <<"in">>
 StageRefs(s, st) == CASE Family = "custom" -> (IF st \in DOMAIN Custom.refs[s] THEN RangeOf(Custom.refs[s][st]) ELSE {})
                       [] Family = "chain2" /\ s = "b" /\ st = "starting" -> {So("a", "outputs", "success")}
                       [] Family = "dis2" /\ s = "b" /\ st = "starting" -> {So("a", "disabled", "output")}     \* b runs because a is disabled
+                      [] Family = "loop2" /\ s = "b" /\ st = "execute" -> {So("a", "outputs", "success")}     \* the loop waits for a
                       [] Family = "stop2" /\ s = "a" /\ st = "cancelled" -> {So("b", "outputs", "success")}   \* a is stopped when b has succeeded
                       [] OTHER -> {}
 \* the value of a step's enabled expression ("T" when it has none) and whether its stop condition is true when evaluated
@@ -52,7 +53,8 @@ EnabledVal(s) == CASE Family = "custom" -> Custom.enabled[s] [] Family = "dis2" 
 StopVal(s) == CASE Family = "custom" -> Custom.stop[s] [] Family = "stop2" /\ s = "a" -> "T" [] OTHER -> "F"
 OutputIds == CASE Family = "custom" -> DOMAIN Custom.outputs [] OTHER -> {"o"}
 OutRefs(id) == CASE Family = "custom" -> RangeOf(Custom.outputs[id])
-                 [] Family \in {"single", "stop2"} -> {So("a", "outputs", "success")}
+                 [] Family \in {"single", "stop2", "loop1"} -> {So("a", "outputs", "success")}
+                 [] Family = "loop2" -> {So("b", "outputs", "success")}
                  [] Family = "dis2" -> {So("b", "outputs", "success")}
                  [] Family = "chain2" -> {So("b", "outputs", "success")}
                  [] Family \in {"fan2", "fan3"} -> {So(s, "outputs", "success") : s \in Steps}
@@ -65,27 +67,45 @@ Beh(s) == CASE AllOutcomes -> {"success", "error", "alt", "err", "hang"}
 DeployMayFail(s) == AllOutcomes \/ Family \in {"single", "chain2"}
 HasHandler(s) == TRUE
 
-Stages == {"deploy", "deploy_failed", "enabling", "starting", "running", "cancelled", "disabled", "outputs", "crashed", "closed"}
-Declared(st) == CASE st = "deploy_failed" -> {"error"} [] st = "enabling" -> {"resolved"} [] st = "starting" -> {"started"}
-                  [] st = "disabled" -> {"output"} [] st = "crashed" -> {"error"} [] st = "closed" -> {"result"}
-                  [] st = "outputs" -> {"success", "error", "alt", "cancelled_early"} [] OTHER -> {}
-NextStages(a) ==
-  CASE a = "deploy"    -> {<<"starting", AND>>, <<"deploy_failed", CAND>>, <<"closed", CAND>>}
-    [] a = "enabling"  -> {<<"starting", AND>>, <<"disabled", AND>>, <<"crashed", CAND>>, <<"closed", CAND>>}
-    [] a = "starting"  -> {<<"running", AND>>, <<"crashed", CAND>>, <<"closed", CAND>>}
-    [] a = "running"   -> {<<"outputs", AND>>, <<"crashed", CAND>>, <<"closed", CAND>>}
-    [] a = "cancelled" -> {<<"outputs", CAND>>, <<"crashed", CAND>>, <<"deploy_failed", CAND>>, <<"closed", CAND>>}
-    [] OTHER -> {}
-HasInput(st) == st \in {"deploy", "enabling", "starting", "cancelled"}
+\* step kinds and their lifecycles (tables as in Lifecycles.tla; "foreach" = a loop step over a sub-workflow, whose item
+\* runs are engine runs of their own - here only the time they take and their joint verdict)
+Kind(s) == CASE Family = "custom" -> Custom.kinds[s] [] Family = "loop1" /\ s = "a" -> "foreach" [] Family = "loop2" /\ s = "b" -> "foreach"
+             [] OTHER -> "plugin"
+PluginStages == {"deploy", "deploy_failed", "enabling", "starting", "running", "cancelled", "disabled", "outputs", "crashed", "closed"}
+LoopStages == {"enabling", "disabled", "execute", "outputs", "failed", "closed"}
+Stages == PluginStages \cup LoopStages
+StagesOf(s) == IF Kind(s) = "plugin" THEN PluginStages ELSE LoopStages
+Declared(s, st) ==
+  IF Kind(s) = "plugin" THEN
+    CASE st = "deploy_failed" -> {"error"} [] st = "enabling" -> {"resolved"} [] st = "starting" -> {"started"}
+      [] st = "disabled" -> {"output"} [] st = "crashed" -> {"error"} [] st = "closed" -> {"result"}
+      [] st = "outputs" -> {"success", "error", "alt", "cancelled_early"} [] OTHER -> {}
+  ELSE
+    CASE st = "outputs" -> {"success"} [] st = "failed" -> {"error"} [] st = "enabling" -> {"resolved"}
+      [] st = "disabled" -> {"output"} [] st = "closed" -> {"result"} [] OTHER -> {}
+NextStages(s, a) ==
+  IF Kind(s) = "plugin" THEN
+    CASE a = "deploy"    -> {<<"starting", AND>>, <<"deploy_failed", CAND>>, <<"closed", CAND>>}
+      [] a = "enabling"  -> {<<"starting", AND>>, <<"disabled", AND>>, <<"crashed", CAND>>, <<"closed", CAND>>}
+      [] a = "starting"  -> {<<"running", AND>>, <<"crashed", CAND>>, <<"closed", CAND>>}
+      [] a = "running"   -> {<<"outputs", AND>>, <<"crashed", CAND>>, <<"closed", CAND>>}
+      [] a = "cancelled" -> {<<"outputs", CAND>>, <<"crashed", CAND>>, <<"deploy_failed", CAND>>, <<"closed", CAND>>}
+      [] OTHER -> {}
+  ELSE
+    CASE a = "execute"  -> {<<"outputs", AND>>, <<"failed", CAND>>}
+      [] a = "enabling" -> {<<"execute", AND>>, <<"disabled", AND>>, <<"closed", CAND>>}
+      [] OTHER -> {}
+InputStages(s) == IF Kind(s) = "plugin" THEN {"deploy", "enabling", "starting", "cancelled"} ELSE {"enabling", "execute"}
+HasInput(s, st) == st \in InputStages(s)
 
-AllNode == {InNode} \cup {St(s, st) : s \in Steps, st \in Stages}
-           \cup UNION {{So(s, st, o) : o \in Declared(st)} : s \in Steps, st \in Stages}
+AllNode == {InNode} \cup UNION {{St(s, st) : st \in StagesOf(s)} : s \in Steps}
+           \cup UNION {{So(s, st, o) : o \in Declared(s, st)} : s \in Steps, st \in Stages}
            \cup {Out(id) : id \in OutputIds}
 
 \* edges <<m, n, t>>: m depends on n
-Edges == UNION {{<<St(s, nx[1]), St(s, a), nx[2]>> : nx \in NextStages(a)} : s \in Steps, a \in Stages}
-         \cup UNION {{<<So(s, st, o), St(s, st), AND>> : o \in Declared(st)} : s \in Steps, st \in Stages}
-         \cup UNION {{<<St(s, st), r, AND>> : r \in StageRefs(s, st)} : s \in Steps, st \in {"deploy", "enabling", "starting", "cancelled"}}
+Edges == UNION {{<<St(s, nx[1]), St(s, a), nx[2]>> : nx \in NextStages(s, a)} : s \in Steps, a \in Stages}
+         \cup UNION {{<<So(s, st, o), St(s, st), AND>> : o \in Declared(s, st)} : s \in Steps, st \in Stages}
+         \cup UNION {UNION {{<<St(s, st), r, AND>> : r \in StageRefs(s, st)} : st \in InputStages(s)} : s \in Steps}
          \cup UNION {{<<Out(id), r, AND>> : r \in OutRefs(id)} : id \in OutputIds}
 E == {<<e[1], e[2]>> : e \in Edges}
 TypeOf(m, n) == (CHOOSE e \in Edges : e[1] = m /\ e[2] = n)[3]
@@ -162,8 +182,10 @@ Init ==
   /\ outCh = "empty" /\ errq = <<>> /\ lockHolder = <<"free">> /\ blocked = <<>> /\ hq = NoH /\ runCtx = FALSE /\ parentCancelled = FALSE
   /\ mainPc = "kickoff" /\ result = [kind |-> "none", id |-> Nil] /\ det = [s \in Steps |-> [k \in 0..Retries |-> 0]]
   /\ termTodo = {} /\ termCur = Nil /\ panicked = FALSE /\ fired = {}
-  /\ stage = [s \in Steps |-> "deploy"] /\ state = [s \in Steps |-> "starting"] /\ prevStage = [s \in Steps |-> Nil]
-  /\ pend = [s \in Steps |-> <<SetSt("running"), SC0>>] /\ cont = [s \in Steps |-> "tryD"]
+  /\ stage = [s \in Steps |-> IF Kind(s) = "plugin" THEN "deploy" ELSE "enabling"] /\ state = [s \in Steps |-> "starting"]
+  /\ prevStage = [s \in Steps |-> Nil]
+  /\ pend = [s \in Steps |-> IF Kind(s) = "plugin" THEN <<SetSt("running"), SC0>> ELSE <<>>]
+  /\ cont = [s \in Steps |-> IF Kind(s) = "plugin" THEN "tryD" ELSE "fAwaitE"]
   /\ slotD = [s \in Steps |-> 0] /\ slotE = [s \in Steps |-> "empty"] /\ slotR = [s \in Steps |-> 0]
   /\ stepCtx = [s \in Steps |-> FALSE] /\ closedFlag = [s \in Steps |-> FALSE] /\ conn = [s \in Steps |-> "none"]
   /\ exec = [s \in Steps |-> "none"] /\ execRes = [s \in Steps |-> Nil] /\ sigNil = [s \in Steps |-> FALSE]
@@ -172,13 +194,18 @@ Init ==
 ----------------------------------------------------------------------------
 \* notifySteps as a fold over the popped ready set (canonical order; see DESIGN for the map-order abstraction)
 \* acc: [g, slotD, slotE, slotR, state, stepCtx, sigQ, errs, wo, od, oc, cancel]
+\* (a loop step that was asked to close - its closed flag is set - drops whatever it is handed afterwards; a plugin
+\* step accepts it and lets its cancelled context decide)
 ProvideInto(acc, s, st) ==
+  IF Kind(s) = "foreach" /\ closedFlag[s] THEN acc ELSE
   CASE st = "deploy"   -> [acc EXCEPT !.slotD[s] = 1,
                                       !.state[s] = IF acc.state[s] = "waiting_for_input" /\ stage[s] = "deploy" THEN "running" ELSE @]
     [] st = "enabling" -> [acc EXCEPT !.slotE[s] = EnabledVal(s),
                                       !.state[s] = IF acc.state[s] = "waiting_for_input" /\ stage[s] = "enabling" THEN "running" ELSE @]
     [] st = "starting" -> [acc EXCEPT !.slotR[s] = 1,
                                       !.state[s] = IF acc.state[s] = "waiting_for_input" /\ stage[s] = "starting" THEN "running" ELSE @]
+    [] st = "execute" -> [acc EXCEPT !.slotR[s] = 1,
+                                     !.state[s] = IF acc.state[s] = "waiting_for_input" /\ stage[s] = "execute" THEN "running" ELSE @]
     \* a true stop condition cancels the step (cancelStep): its context ends, and a running plugin is sent the signal
     [] st = "cancelled" -> IF StopVal(s) = "T"
                              THEN [acc EXCEPT !.stepCtx[s] = TRUE,
@@ -194,7 +221,7 @@ NotifyFold(acc, todo) ==
          IF n \in acc.wo /\ wo2 = {} /\ ~acc.od THEN NotifyFold([acc EXCEPT !.wo = wo2, !.errs = Append(@, "nooutputs"), !.cancel = TRUE], Tail(todo))
                                 ELSE NotifyFold([acc EXCEPT !.wo = wo2], Tail(todo))
       ELSE NotifyFold(acc, Tail(todo))
-  ELSE IF n[1] = "st" /\ HasInput(n[3]) THEN NotifyFold([acc EXCEPT !.provs = Append(@, <<n[2], n[3]>>)], Tail(todo))
+  ELSE IF n[1] = "st" /\ HasInput(n[2], n[3]) THEN NotifyFold([acc EXCEPT !.provs = Append(@, <<n[2], n[3]>>)], Tail(todo))
   ELSE IF n[1] = "out" THEN
       LET r == Resolve(acc.g, n, "R") IN
       IF acc.od THEN NotifyFold([acc EXCEPT !.g = r.g], Tail(todo))
@@ -257,7 +284,7 @@ Live(s) == cont[s] \notin {"exit", "done"}
 Quiescent == /\ \A s \in Steps : /\ pend[s] = <<>>
                                  /\ Live(s) => /\ slotD[s] = 0 /\ slotE[s] = "empty" /\ slotR[s] = 0
                                                 /\ exec[s] # "running" /\ resQ[s] = <<>>
-                                                /\ cont[s] \in {"awaitD", "awaitE", "awaitR"}
+                                                /\ cont[s] \in {"awaitD", "awaitE", "awaitR", "fAwaitE", "fAwaitX"}
              /\ g.ready = {}
 \* some step has a notification (or the state update that precedes it) queued: the window of DESIGN 14.2
 InFlight == \E s \in Steps : pend[s] # <<>>
@@ -328,7 +355,7 @@ HNext == HErr \/ HOut \/ HCheck \/ HEnd \/ (\E s \in Steps, st \in Stages : HPro
 
 ----------------------------------------------------------------------------
 \* step goroutine: micro-ops. Handlers need L.
-OthersOut(s, st, o) == {So(s, st, x) : x \in Declared(st) \ {o}}
+OthersOut(s, st, o) == {So(s, st, x) : x \in Declared(s, st) \ {o}}
 RECURSIVE MarkAllU(_, _)
 MarkAllU(gg, ns) == IF ns = <<>> THEN [g |-> gg, err |-> FALSE]
                     ELSE LET r == Resolve(gg, Head(ns), "U") IN IF r.err THEN r ELSE MarkAllU(r.g, Tail(ns))
@@ -343,7 +370,7 @@ HandlerSCCO(s, prev, out, isCO) ==
             IF r3.err THEN [acc |-> Acc0(r2.g), prod |-> produced, panic |-> TRUE]
             ELSE [acc |-> Notify(r3.g), prod |-> produced \cup {So(s, prev, out)}, panic |-> FALSE]
 HandlerF(s, st) ==
-  LET r == MarkAllU(g, Seqify({So(s, st, o) : o \in Declared(st)}) \o <<St(s, st)>>) IN
+  LET r == MarkAllU(g, Seqify({So(s, st, o) : o \in Declared(s, st)}) \o <<St(s, st)>>) IN
   IF r.err THEN [acc |-> Acc0(g), prod |-> produced, panic |-> TRUE]
   ELSE [acc |-> Notify(r.g), prod |-> produced, panic |-> FALSE]
 
@@ -446,6 +473,36 @@ Exit(s) == /\ Idle(s) /\ cont[s] = "exit"
            /\ stepCtx' = [stepCtx EXCEPT ![s] = TRUE] /\ wg' = [wg EXCEPT ![s] = @ - 1] /\ Go(s, <<>>, "done")
            /\ UNCHANGED <<rl, stage, state, prevStage, slotD, slotE, slotR, closedFlag, exec, execRes, sigNil, sigQ, resQ, execStarted>>
 
+\* ---- loop step (foreach provider) ---------------------------------------------------------------------------------
+FailuresF(from) == CASE from = "enabling" -> <<F("enabling"), F("disabled"), F("execute"), F("outputs")>>
+                     [] from = "execute" -> <<F("execute"), F("outputs")>>
+ClosedEarlyF(from, priorFailed) ==
+  (IF priorFailed THEN <<FromFailed("closed", "running"), F("$prev")>> ELSE <<Set("closed", "running"), SC(Nil)>>)
+  \o <<Set("closed", "finished"), CO("result")>> \o FailuresF(from)
+DisabledScriptF == <<Set("disabled", "running"), SC("resolved"), Set("disabled", "finished"), CO("output")>> \o FailuresF("execute") \o <<F("closed")>>
+LoopSuccessScript == <<Set("outputs", "running"), SC(Nil), F("failed"), SetSt("finished"), CO("success")>>
+LoopFailedScript == <<Set("failed", "running"), SC(Nil), F("outputs"), SetSt("finished"), CO("error")>>
+FStepRest == <<rl, stage, state, prevStage, slotD, stepCtx, closedFlag, conn, exec, execRes, sigNil, sigQ, resQ, wg, execStarted>>
+FAwaitE(s) == /\ Idle(s) /\ cont[s] = "fAwaitE"
+              /\ \/ slotE[s] = "T" /\ slotE' = [slotE EXCEPT ![s] = "empty"] /\ Go(s, <<F("disabled")>>, "fTryX")
+                 \/ slotE[s] = "F" /\ slotE' = [slotE EXCEPT ![s] = "empty"] /\ Go(s, DisabledScriptF, "exit")
+                 \/ stepCtx[s] /\ U0(slotE) /\ Go(s, ClosedEarlyF("execute", TRUE), "exit")
+              /\ UNCHANGED FStepRest /\ U0(slotR)
+\* looks whether the items are already there, enters the execute stage, tells the run loop (twice: stage change with the
+\* enabling output, then a bare stage change)
+FTryX(s) == /\ Idle(s) /\ cont[s] = "fTryX"
+            /\ Go(s, <<Set("execute", IF slotR[s] = 1 THEN "running" ELSE "waiting_for_input"), SC("resolved"), SC0>>, "fAwaitX")
+            /\ UNCHANGED FStepRest /\ UNCHANGED <<slotE, slotR>>
+\* waits for the items; a loop closed while it waits leaves without a word (a known deviation kept visible in ForeachStep.tla)
+FAwaitX(s) == /\ Idle(s) /\ cont[s] = "fAwaitX"
+              /\ \/ slotR[s] = 1 /\ slotR' = [slotR EXCEPT ![s] = 0] /\ Go(s, <<>>, "fRun")
+                 \/ stepCtx[s] /\ U0(slotR) /\ Go(s, <<>>, "exit")
+              /\ UNCHANGED FStepRest /\ U0(slotE)
+\* all item runs have returned (or were aborted): the loop reports success, or failure if an item failed or never ran
+FRun(s) == /\ Idle(s) /\ cont[s] = "fRun"
+           /\ \/ Go(s, LoopSuccessScript, "exit") \/ Go(s, LoopFailedScript, "exit")
+           /\ UNCHANGED FStepRest /\ UNCHANGED <<slotE, slotR>>
+
 PluginReturn(s) == /\ exec[s] = "running"
                    /\ \/ \E r \in Beh(s) \ {"hang"} : execRes' = [execRes EXCEPT ![s] = r]
                       \/ sigQ[s] > 0 /\ execRes' = [execRes EXCEPT ![s] = "cancelled_early"]
@@ -515,25 +572,31 @@ MainGrace ==
   /\ mainPc' = "terminate" /\ termTodo' = Steps
   /\ UNCHANGED <<g, produced, waitingOutputs, outputDone, lockHolder, blocked, hq, runCtx, parentCancelled, det, termCur, panicked, fired>>
   /\ UNCHANGED sv
-GraceForceClose(s) ==   \* the spawned terminateAllSteps during grace: only its cancel effect matters before the deferred one
+\* Closing a step (ForceClose / Close) is two steps: the closed flag is swapped to true, then the step's context is
+\* cancelled.  During the grace period a spawned terminator goes through all steps; afterwards the deferred one does.
+GraceMark(s) ==
   /\ mainPc = "grace" /\ ~closedFlag[s]
-  /\ closedFlag' = [closedFlag EXCEPT ![s] = TRUE] /\ stepCtx' = [stepCtx EXCEPT ![s] = TRUE]
+  /\ closedFlag' = [closedFlag EXCEPT ![s] = TRUE]
   /\ UNCHANGED rl
-  /\ UNCHANGED <<stage, state, prevStage, pend, cont, slotD, slotE, slotR, conn, exec, execRes, sigNil, sigQ, resQ, wg, execStarted>>
-\* terminateAllSteps: ForceClose of one step after the other - the call, then (unless the step was closed before)
-\* the cancellation of its context, then the wait for its goroutines
+  /\ UNCHANGED <<stage, state, prevStage, pend, cont, slotD, slotE, slotR, stepCtx, conn, exec, execRes, sigNil, sigQ, resQ, wg, execStarted>>
+CloseCancel(s) ==
+  /\ closedFlag[s] /\ ~stepCtx[s]
+  /\ stepCtx' = [stepCtx EXCEPT ![s] = TRUE]
+  /\ UNCHANGED rl
+  /\ UNCHANGED <<stage, state, prevStage, pend, cont, slotD, slotE, slotR, closedFlag, conn, exec, execRes, sigNil, sigQ, resQ, wg, execStarted>>
+\* terminateAllSteps: ForceClose of one step after the other - the call, the closed flag, the cancellation, the wait
 TermPick(s) ==
   /\ mainPc = "terminate" /\ termCur = Nil /\ s \in termTodo
   /\ termCur' = s /\ termTodo' = termTodo \ {s}
   /\ UNCHANGED <<g, produced, waitingOutputs, outputDone, outCh, errq, lockHolder, blocked, hq, runCtx, parentCancelled, mainPc, result, det, panicked, fired>>
   /\ UNCHANGED sv
-TermCancel(s) ==
+TermMark(s) ==
   /\ mainPc = "terminate" /\ termCur = s /\ ~closedFlag[s]
-  /\ closedFlag' = [closedFlag EXCEPT ![s] = TRUE] /\ stepCtx' = [stepCtx EXCEPT ![s] = TRUE]
+  /\ closedFlag' = [closedFlag EXCEPT ![s] = TRUE]
   /\ UNCHANGED rl
-  /\ UNCHANGED <<stage, state, prevStage, pend, cont, slotD, slotE, slotR, conn, exec, execRes, sigNil, sigQ, resQ, wg, execStarted>>
+  /\ UNCHANGED <<stage, state, prevStage, pend, cont, slotD, slotE, slotR, stepCtx, conn, exec, execRes, sigNil, sigQ, resQ, wg, execStarted>>
 TermWait ==
-  /\ mainPc = "terminate" /\ termCur # Nil /\ closedFlag[termCur] /\ wg[termCur] = 0 /\ ~DetLive(termCur)
+  /\ mainPc = "terminate" /\ termCur # Nil /\ closedFlag[termCur] /\ stepCtx[termCur] /\ wg[termCur] = 0 /\ ~DetLive(termCur)
   /\ termCur' = Nil
   /\ UNCHANGED <<g, produced, waitingOutputs, outputDone, outCh, errq, lockHolder, blocked, hq, runCtx, parentCancelled, mainPc, result, det, termTodo, panicked, fired>>
   /\ UNCHANGED sv
@@ -546,12 +609,13 @@ MainReturn ==
 \* a goroutine that is inside a handler (split mode) does nothing else until the handler has ended
 Busy(who) == hq.active /\ hq.who = who
 StepNext(s) == (~Busy(<<"step", s>>) /\ (StepMicro(s) \/ TryD(s) \/ AwaitD(s) \/ Deploy(s) \/ PostDeploy(s) \/ AwaitE(s) \/ TryR(s) \/ AwaitR(s)
-                                         \/ ReadSchema(s) \/ AwaitRes(s) \/ CancelSend(s) \/ AwaitResCancel(s) \/ Exit(s)))
+                                         \/ ReadSchema(s) \/ AwaitRes(s) \/ CancelSend(s) \/ AwaitResCancel(s) \/ Exit(s)
+                                         \/ FAwaitE(s) \/ FTryX(s) \/ FAwaitX(s) \/ FRun(s)))
                \/ PluginReturn(s) \/ ExecPublish(s) \/ ExecDone(s)
 DetNext == \E s \in Steps, k \in 0..Retries : DetectorFire(s, k) \/ DetWake(s, k) \/ DetectorCtxExit(s, k)
 MainNext == (~Busy(<<"main">>) /\ (MainKickoff \/ MainSelectOutput \/ MainSelectCtx \/ MainGrace \/ MainReturn \/ TermWait
-                                      \/ \E s \in Steps : TermPick(s) \/ TermCancel(s)))
-            \/ \E s \in Steps : GraceForceClose(s)
+                                      \/ \E s \in Steps : TermPick(s) \/ TermMark(s)))
+            \/ \E s \in Steps : GraceMark(s) \/ CloseCancel(s)
 Next == (\E s \in Steps : StepNext(s)) \/ DetNext \/ MainNext \/ Unblock \/ CallerCancel \/ HNext
 Spec == Init /\ [][Next]_vars
 FairSpec == Spec /\ WF_vars(MainNext) /\ WF_vars(DetNext) /\ WF_vars(Unblock) /\ WF_vars(HNext) /\ \A s \in Steps : WF_vars(StepNext(s))
@@ -565,6 +629,7 @@ StateSlotTruthful == \A s \in Steps : (state[s] = "waiting_for_input" /\ cont[s]
                         /\ (stage[s] = "deploy" => slotD[s] = 0 \/ (~DeployWaitChecked /\ cont[s] = "awaitD"))   \* before the repair: a transient
                         /\ (stage[s] = "enabling" => slotE[s] = "empty")
                         /\ (stage[s] = "starting" => slotR[s] = 0)
+                        /\ (stage[s] = "execute" => slotR[s] = 0)
 DetectorSound == fired \subseteq {"quiescent"}              \* violated: the known in-flight window
 DetectorSoundModuloInFlight == "busy" \notin fired    \* holds: the detector never fires over unread input or a running plugin
 Returned == mainPc = "returned"
